@@ -39,6 +39,11 @@ impl MetricLogWriter for DefaultMetricLogWriter {
             return Ok(());
         }
         if time_sec > self.latest_op_sec {
+            // roll to the new day's file first: the index entry of this second belongs to
+            // the file that receives its lines
+            if self.is_new_day(self.latest_op_sec, time_sec) {
+                self.roll_to_next_file(ts)?;
+            }
             let pos = self
                 .cur_metric_file
                 .as_ref()
@@ -47,9 +52,6 @@ impl MetricLogWriter for DefaultMetricLogWriter {
                 .unwrap()
                 .seek(SeekFrom::Current(0))?;
             self.write_index(time_sec, pos)?;
-            if self.is_new_day(self.latest_op_sec, time_sec) {
-                self.roll_to_next_file(ts)?;
-            }
         }
         // Write and flush
         self.write_items_and_flush(items)?;
